@@ -64,6 +64,14 @@ var GNPool = []GNPoolEntry{
 	{"uri-empty", func() *der.Node { return GNURI("") }},
 	{"uri-blank", func() *der.Node { return GNURI("http://www.example.com/a b") }},
 	{"uri-ldap", func() *der.Node { return GNURI("ldap://ldap.example.com/cn=x?cert") }},
+	{"uri-single-label", func() *der.Node { return GNURI("http://localhost/status") }},
+	{"uri-single-label-port", func() *der.Node { return GNURI("https://intranet-ca:8443/ca.crt") }},
+	{"uri-single-label-ldap", func() *der.Node { return GNURI("ldap://dc01/cn=ca") }},
+	{"uri-star-host", func() *der.Node { return GNURI("http://*/x") }},
+	{"uri-userinfo-single", func() *der.Node { return GNURI("http://admin@corp/") }},
+	{"dns-ipv4-literal", func() *der.Node { return GNDNS("192.0.2.7") }},
+	{"dns-ipv6-literal", func() *der.Node { return GNDNS("2001:db8::1") }},
+	{"dns-single-label", func() *der.Node { return GNDNS("localhost") }},
 	{"uri-non-ia5", func() *der.Node { return der.CtxPrim(6, []byte("https://ex\xe4mple.com/")) }},
 	{"ip-v4-public", func() *der.Node { return GNIP([]byte{93, 184, 216, 34}) }},
 	{"ip-v4-private", func() *der.Node { return GNIP([]byte{10, 0, 0, 1}) }},
